@@ -181,12 +181,17 @@ def known_bad_statement(m, a):
 TERMINAL_FOR_DASL = re.compile(r"^\s*(jp\s|ret\b|reti\b|retn\b|ld\s+\(hl\),\()", re.I)
 
 
+def pool_shape(m, a):
+    """statement shapes of the pool (jumps to absolute numbers are left to the program generator: targets inside the image)"""
+    return not (m in ("jrs", "jr", "callv", "callp") or (m in ("jp", "call") and not re.search(r"[(]|^(wa|bc|de|hl)$", a)))
+
+
 def build_pool(bdir, wd, rng, shapes, per_shape, name="pool"):
     """concrete statements with the bytes the real asl makes of them: [dict(m, a, text, bytes, sig)]"""
     stm = []
     for m, a in shapes:
-        if m in ("jrs", "jr", "callv", "callp") or (m in ("jp", "call") and not re.search(r"[(]|^(wa|bc|de|hl)$", a)):
-            continue          # jumps to absolute numbers: targets are chosen by the program generator (inside the image)
+        if not pool_shape(m, a):
+            continue
         k = per_shape if "{" in a else 1
         seen = set()
         for _ in range(k):
@@ -194,11 +199,16 @@ def build_pool(bdir, wd, rng, shapes, per_shape, name="pool"):
             if t not in seen:
                 seen.add(t)
                 stm.append((m, t))
+    return assemble_pool(bdir, wd, stm, name)
+
+
+def assemble_pool(bdir, wd, stm, name):
+    """[(mnemonic, operand text)] -> [dict(m, a, text, bytes, sig, reg16, idx)] for the statements asl accepts (idx = position in stm)"""
     out = []
     for start in range(0, len(stm), 6000):
-        part = stm[start:start + 6000]
+        part = [(start + i, m, t) for i, (m, t) in enumerate(stm[start:start + 6000])]
         for attempt in range(3):
-            lines = ["\torg\t0"] + ["P%d:\t%s\t%s" % (i, m, t) for i, (m, t) in enumerate(part)] + ["P%d:" % len(part)]
+            lines = ["\torg\t0"] + ["P%d:\t%s\t%s" % (i, m, t) for i, (_x, m, t) in enumerate(part)] + ["P%d:" % len(part)]
             for i in range(0, len(part) + 1, 16):
                 lines.append("\tdw\t" + ",".join("P%d" % j for j in range(i, min(i + 16, len(part) + 1))))
             bad, mem, txt = asl_lines_ok(bdir, wd, name, lines)
@@ -219,11 +229,38 @@ def build_pool(bdir, wd, rng, shapes, per_shape, name="pool"):
         addrs = [flat[tab + 2 * i] | (flat[tab + 2 * i + 1] << 8) for i in range(len(part) + 1)]
         if addrs[0] != 0 or addrs[-1] != tab:
             raise RuntimeError("87C800 pool: address table not found at the end of the code")
-        for i, (m, t) in enumerate(part):
+        for i, (idx, m, t) in enumerate(part):
             bs = bytes(flat[x] for x in range(addrs[i], addrs[i + 1]))
             if not bs:
                 continue
-            out.append(dict(m=m, a=t, text="\t%s\t%s" % (m, t) if t else "\t%s" % m, bytes=bs, sig=known_bad_statement(m, t), reg16=reg16_class(m, t)))
+            out.append(dict(m=m, a=t, text="\t%s\t%s" % (m, t) if t else "\t%s" % m, bytes=bs, sig=known_bad_statement(m, t), reg16=reg16_class(m, t), idx=idx))
+    return out
+
+
+def synth_boundary_pool(bdir, wd, shapes):
+    """instructions with the boundary values 0 and 255 of a direct address, as BYTES: every shape with a `({n8})` operand is assembled with
+    the addresses 1 and 2, the one byte that differs is the address byte, and the instruction for the boundary value is that image with
+    the byte replaced.  The bytes do not depend on whether asl accepts the boundary value in a source text (it used to reject the
+    address 0); in a program they are written as `db`, dasl has to list them as the instruction and asl has to take that listing.
+    -> pool entries with `synth` set (text = the db line, stmt = the statement the bytes stand for)"""
+    sh = [(m, a) for m, a in shapes if pool_shape(m, a) and a.count("{n8}") == 1]
+    def inst(a, v):
+        return fill(a.replace("{n8}", v))
+    stm = [(m, inst(a, "1")) for m, a in sh] + [(m, inst(a, "2")) for m, a in sh]
+    res = {p["idx"]: p["bytes"] for p in assemble_pool(bdir, wd, stm, "synth")}
+    out = []
+    for k, (m, a) in enumerate(sh):
+        b1, b2 = res.get(k), res.get(len(sh) + k)
+        if b1 is None or b2 is None or len(b1) != len(b2):
+            continue
+        diff = [i for i in range(len(b1)) if b1[i] != b2[i]]
+        if len(diff) != 1 or (b1[diff[0]], b2[diff[0]]) != (1, 2):
+            continue
+        for v in (0, 255):
+            bs = bytes(b1[:diff[0]]) + bytes([v]) + bytes(b1[diff[0] + 1:])
+            t = inst(a, "%d" % v)
+            out.append(dict(m=m, a=t, text="\tdb\t" + ",".join("%d" % x for x in bs), stmt="\t%s\t%s" % (m, t), bytes=bs, sig=None,
+                            reg16=False, synth=True))
     return out
 
 
@@ -243,8 +280,8 @@ def gen_87c(rng, pool, feature=None):
     """a valid program: blocks of pool statements and jumps, every block ends in something dasl treats as terminal
     (jp / jr / ret / reti / retn); data may follow any of them"""
     feats = set()
-    clean = [p for p in pool if p["sig"] is None and not TERMINAL_FOR_DASL.match(p["text"]) and p["m"] not in ("jp",)]
-    term_ind = [p for p in pool if p["m"] == "jp" and p["sig"] is None]
+    clean = [p for p in pool if p["sig"] is None and not TERMINAL_FOR_DASL.match(p.get("stmt", p["text"])) and p["m"] not in ("jp",)]
+    term_ind = [p for p in pool if p["m"] == "jp" and p["sig"] is None and not p.get("synth")]
     items = []
     high = feature in ("callv", "callp")
     nblocks = rng.randrange(1, 8) if not high else rng.randrange(1, 4)
@@ -257,6 +294,8 @@ def gen_87c(rng, pool, feature=None):
             elif r < 0.62:
                 p = rng.choice(clean)
                 items.append(_i("plain", len(p["bytes"]), p["text"]))
+                if p.get("synth"):
+                    feats.add("synth-boundary")
             elif r < 0.72:
                 items.append(_i("jrs", 1, cond=rng.choice(["t", "f"])))
             elif r < 0.86:
@@ -268,7 +307,7 @@ def gen_87c(rng, pool, feature=None):
             items.append(_i("plain", len(p["bytes"]), p["text"]))
             feats.add("reg16")
         if feature == "ld-hl-mem" and b == 0:
-            cand = [p for p in pool if TERMINAL_FOR_DASL.match(p["text"]) and p["m"] == "ld"]
+            cand = [p for p in pool if TERMINAL_FOR_DASL.match(p["text"]) and p["m"] == "ld" and not p.get("synth")]
             if cand:
                 p = rng.choice(cand)
                 items.append(_i("plain", len(p["bytes"]), p["text"]))
@@ -358,15 +397,18 @@ def gen_87c(rng, pool, feature=None):
             t = pick(0xff00, None)
             if t is None:
                 it["text"], it["size"] = "\tinc\t(12h)", 2
-            elif t > a and a < 0xff00:
-                # asl itself rejects `callp <forward label>` outside the pages 00/FF (pass 1 range-checks the placeholder value): number
-                it["text"] = "\tcallp\t0%04xh" % t
-                feats.add("callp")
-                feats.add("callp-forward")
-                jumps.append((a, "callp", None, t, 2, None, None))
             else:
                 it["text"] = "\tcallp\tL%04X" % t
                 feats.add("callp")
+                if t > a and a < 0xff00:
+                    feats.add("callp-forward")      # a forward label, used from outside the pages 00/FF
+                    if rng.random() < 0.5:
+                        # the same call with the target as a number: the source then does not depend on how asl treats the forward
+                        # label, only the listing dasl makes of the image does (it always prints a label)
+                        it["text"] = "\tcallp\t0%04xh" % t
+                        feats.add("callp-forward-numeric")
+                        jumps.append((a, "callp", None, t, 2, None, None))
+                        continue
                 jumps.append((a, "callp", None, t, 2, it["text"], "L%04X" % t))
         elif k == "callv":
             v = it["vec"]
@@ -562,10 +604,9 @@ def run_case(bdir, wd, idx, case, load, lower, timeout=20):
     for st_, d_ in image:
         for i_, x_ in enumerate(d_):
             imgflat[st_ + i_] = x_
-    across = c15.split_lines(image, parse_listing(so)) if hexinfo else set()
     for a, (text, n) in sorted(parse_listing(so).items()):
         m = PRINTED_JUMP_RE.match(text.decode("latin-1"))
-        if not m or a in across:        # (a line fetched across two chunks is not a statement about the image's bytes: SPLIT_SIG)
+        if not m:
             continue
         memo, cond, lab, hexv, vec = m.group(1), m.group(2), m.group(3), m.group(4), m.group(5)
         t = int(vec) if memo == "callv" else int(hexv, 16)
@@ -617,8 +658,8 @@ def run_raster(bdir, wd, name, base, lower, slots, timeout=20):
     vf = os.path.join(wd, name + "_v.bin")
     open(bf, "wb").write(bytes(img))
     open(vf, "wb").write(vec)
-    # the entry addresses go through a key file (DASCMD=@file): ProcessCMD() marks every command-line argument in das.c's
-    # `CMDProcessed ParUnprocessed` (257 entries, a local of main) without a bound, thousands of arguments smash main's stack
+    # the entry addresses go through a key file (DASCMD=@file): a command line takes at most 256 parameters (more are rejected
+    # since the repair of ProcessCMD; before it they overran das.c's `CMDProcessed ParUnprocessed`)
     kf = os.path.join(wd, name + ".key")
     open(kf, "w").write("".join("-entryaddress %d\n" % (base + SLOT * i) for i in range(len(slots))))
     args = (["-h"] if lower else []) + ["-cpu", "87C00", "-binfile", "%s@%d" % (bf, base), "-binfile", "%s@%d" % (vf, VEC_BASE)]
@@ -766,6 +807,39 @@ def jump_boundary_probes(bdir, wd):
     return out, None
 
 
+def callp_forward_probes(bdir, wd, rng):
+    """`callp <label>` with the label defined further down / further up, in page FF / page 00 / another page; every probe is a source
+    of its own for the real asl: [(driver request `fwd ...`, description)]"""
+    plans = []
+    for _ in range(3):
+        pc = rng.choice([0x0040, 0x1000, 0x8000, 0xfe00, 0xfeff - 1, rng.randrange(0x100, 0xfe00)])
+        plans.append((pc, 0xff00 + rng.randrange(0xc0)))                      # forward, page FF
+        plans.append((pc, rng.randrange(pc + 0x100, 0xff00) & 0xffff if pc < 0xfd00 else 0xfeff))   # forward, neither page 00 nor FF
+        if pc >= 0x100:
+            plans.append((pc, rng.randrange(0x100)))                          # backward, page 00
+    plans.append((0xff10, 0xff80))                                            # forward, from inside page FF
+    plans.append((0xff80, 0xff10))                                            # backward, inside page FF
+    plans.append((0x0010, 0x0080))                                            # forward, inside page 00
+    plans.append((0x0010, 0x1234))                                            # forward from page 00 into another page
+    plans.append((0x4000, 0x2000))                                            # backward, other page
+    out = []
+    for k, (pc, t) in enumerate(plans):
+        if pc <= t < pc + 2:
+            continue
+        use = "\torg\t%d\n\tcallp\tLT\n" % pc
+        dfn = "\torg\t%d\nLT:\tret\n" % t
+        src = "\tcpu\t87c00\n" + (use + dfn if t > pc else dfn + use)
+        from . import c15
+        mem, _err = c15.asm(bdir, wd, "cf%d" % k, src)
+        bs = None
+        if mem is not None:
+            flat = {st + i: x for st, d in mem for i, x in enumerate(d)}
+            bs = bytes(flat[pc + i] for i in range(2) if pc + i in flat)
+        out.append(("fwd %d %d %s" % (pc, t, "none" if bs is None else bs.hex()),
+                    "callp LT at %04X with LT at %04X -> %s" % (pc, t, "error" if bs is None else bs.hex())))
+    return out
+
+
 # --------------------------------------------------------------------------
 def kv_of(ans):
     return dict(x.split("=", 1) for x in ans.split() if "=" in x)
@@ -779,13 +853,8 @@ def classify_program_failure(case, kv, r, listing_line):
     msgs = r["info"].get("reasm_rewritten", "") + r["info"].get("reasm_unchanged", "")
     if "call-outside" in f and "symbol undefined" in msgs:
         return "dasl-label-outside-image-undefined"
-    if "callp-forward" in f and "range overflow" in msgs:
-        return "callp-forward-label-87c"
     if listing_line is not None and re.match(rb"^(ld\tsp,(wa|bc|de|hl)|ld\t(wa|bc|de|hl),sp|call\t(wa|bc|de|hl)|jp\t(wa|bc|de|hl))$", listing_line):
         return "deco87c800-reg16-name-from-opcode"
-    if r["info"].get("split_instruction") is not None and kv.get("text") == "eq" and kv.get("err") == "eq":
-        from . import c15
-        return c15.SPLIT_SIG      # dasl behaves as the transcription of the unchanged loader, an instruction lies across two chunks
     return None
 
 
@@ -818,6 +887,15 @@ def run_part(args, bdir, ok):
             pool = build_pool(bdir, wd, rng, shapes, 2 if quick else 8)
         except RuntimeError as ex:
             return dict(spec_fail=spec_fail, corr_fail=corr_fail, proof_problems=[str(ex)], coverage=dict(distribution=dist), evaluations=0, distinct=0)
+        try:
+            synth = synth_boundary_pool(bdir, wd, shapes)
+        except RuntimeError as ex:
+            problems.append("87C800 boundary statements: %s" % ex)
+            synth = []
+        # every one of them is part of the statement raster, a sample of them of the programs
+        pool_asm = pool
+        pool = pool + common.rng_for(args.seed, "C15-87C-synth").sample(synth, min(len(synth), max(8, len(pool) // 40)))
+        dist["pool_synth_boundary"] = len(synth)
         dist["pool_statements"] = len(pool)
         dist["pool_known_bad"] = sum(1 for p in pool if p["sig"])
         hang_present, hang_info, hang_req = probe_hang(bdir, wd)
@@ -846,8 +924,8 @@ def run_part(args, bdir, ok):
                 c = gen_87c(rng, pool, feat)
             except (IndexError, RecursionError):
                 continue
-            # order of the ORG blocks in the source (= of the records p2hex writes), way of loading; see c15.py.  Programs in the
-            # pages FE/FF (callv / callp features: callp <label> depends on the label being defined before its use) keep their order.
+            # order of the ORG blocks in the source (= of the records p2hex writes), way of loading; see c15.py.  (The programs in the
+            # pages FE/FF used to keep their order, because asl rejected `callp <label defined further down>`; repaired.)
             tag = "gen87c:%d:%s" % (i, feat or "-")
             load, order = c15.pick_load(rng), c15.pick_src_order(rng)
             k = i - nplan_feat
@@ -860,8 +938,6 @@ def run_part(args, bdir, ok):
                         c = gen_87c(rng, pool, feat)
                     except (IndexError, RecursionError):
                         pass
-            if feat in ("callv", "callp"):
-                order = "ascending"
             c15.reorder_source(common.rng_for(args.seed, "C15-order:" + tag), c, order)
             c["hexhand_rng"] = common.rng_for(args.seed, "C15-hexhand:" + tag)
             cases.append((c, load, rng.random() < 0.15, tag))
@@ -890,9 +966,11 @@ def run_part(args, bdir, ok):
                 j_reqs.append(jr_)
                 j_metas.append(("jump-boundary", jd_))
 
+        cf_probes = callp_forward_probes(bdir, wd, common.rng_for(args.seed, "C15-87C-callp"))
+
         # ---- statements: every pool statement on a raster
         st_reqs, st_metas = [], []
-        stmts = pool if not quick else [p for i, p in enumerate(pool) if p["sig"] or p.get("reg16") or (i + args.seed) % 3 == 0]
+        stmts = (pool_asm if not quick else [p for i, p in enumerate(pool_asm) if p["sig"] or p.get("reg16") or (i + args.seed) % 3 == 0]) + synth
         st_batches = [stmts[i:i + RASTER] for i in range(0, len(stmts), RASTER)]
         st_run_reqs = []
         for bi, batch in enumerate(st_batches):
@@ -907,7 +985,7 @@ def run_part(args, bdir, ok):
             for i, p in enumerate(batch):
                 a = base + SLOT * i
                 if a not in rr["listing"]:
-                    problems.append("87C800 statement raster: no listing line for the entry address %x (%s)" % (a, p["text"].strip()))
+                    problems.append("87C800 statement raster: no listing line for the entry address %x (%s)" % (a, p.get("stmt", p["text"]).strip()))
                     continue
                 text = rr["listing"][a]
                 t_rew, rew = rewrite_text(b"\t" + text[0])
@@ -922,7 +1000,7 @@ def run_part(args, bdir, ok):
                 continue
             for a, p, text, rew in pend:
                 st_reqs.append(ins_request(lower, a, bytes(rr["image"][0][1][a - base:a - base + SLOT]), rr["vec"], text))
-                st_metas.append(dict(addr=a, stmt=p["text"].strip(), bytes=p["bytes"].hex(), sig=p["sig"], dasl_text=text[0].decode("latin-1"),
+                st_metas.append(dict(addr=a, stmt=p.get("stmt", p["text"]).strip(), bytes=p["bytes"].hex(), sig=p["sig"], dasl_text=text[0].decode("latin-1"),
                                      dasl_len=text[1], rewrites=rew, asl_rewritten=None if res_rew[a] is None else res_rew[a].hex(),
                                      asl_unchanged=None if res_raw[a] is None else res_raw[a].hex(), lower=lower))
 
@@ -956,6 +1034,7 @@ def run_part(args, bdir, ok):
     ans_st = common.driver("c15_87", st_reqs, timeout=3600) if ok and st_reqs else []
     ans_sw = common.driver("c15_87", sw_reqs, timeout=3600) if ok and sw_reqs else []
     ans_j = common.driver("c15_87", j_reqs, timeout=3600) if ok and j_reqs else []
+    ans_cf = common.driver("c15_87", [q for q, _d in cf_probes], timeout=600) if ok and cf_probes else []
 
     def model_text(kv):
         return bytes.fromhex(kv["mtext"]).decode("latin-1") if kv.get("mtext", "-") not in ("-", "") else ""
@@ -981,6 +1060,9 @@ def run_part(args, bdir, ok):
                 dist[k.replace("-", "_")] += 1
         if c["feats"] & {"reg16", "ret-data", "ld-hl-mem", "call-outside", "callp-forward"}:
             dist["feature_cases"] += 1
+        dist["callp_forward"] = dist.get("callp_forward", 0) + int("callp-forward" in c["feats"])
+        dist["abs_zero"] = dist.get("abs_zero", 0) + int(bool(re.search(r"\((0|00h|000h)\)", c["source"])))
+        dist["undef_dump_bytes"] = dist.get("undef_dump_bytes", 0) + int(kv.get("undef", 0))
         dist["areas_code"] += int(kv.get("ncode", 0))
         dist["areas_data"] += int(kv.get("ndata", 0))
         dist["bytes_disassembled"] += int(kv.get("nbytes", 0))
@@ -1018,11 +1100,10 @@ def run_part(args, bdir, ok):
         if kv.get("bytes") == "fail":
             spec_fail.append(dict(sig=fsig, why="re-assembled bytes differ from the image at address %s (line `%s`)" % (kv.get("bad"), (bad_line or b"?").decode("latin-1")), **common_fields))
         if kv.get("inside") != "ok" or kv.get("disjoint") != "ok":
-            # (a wrongly fetched jump target sends the trace into data / past the end of the image: consequence of SPLIT_SIG)
-            spec_fail.append(dict(sig=fsig if fsig == c15.SPLIT_SIG else None,
+            spec_fail.append(dict(sig=None,
                                   why="reported areas not inside the image / not disjoint: inside=%s disjoint=%s" % (kv.get("inside"), kv.get("disjoint")), **common_fields))
         if kv.get("entry") != "ok":
-            spec_fail.append(dict(sig=fsig if fsig == c15.SPLIT_SIG else None, why="an entry address that lies inside the loaded image is not part of any code area dasl reports "
+            spec_fail.append(dict(sig=None, why="an entry address that lies inside the loaded image is not part of any code area dasl reports "
                                   "(the program was not disassembled starting at its entry points)", **common_fields))
         # (B) model against the real run
         if kv.get("text") != "eq" or kv.get("err") != "eq" or kv.get("rc") != "eq" or kv.get("areas") != "eq" or kv.get("hang") != "0":
@@ -1066,6 +1147,12 @@ def run_part(args, bdir, ok):
         if kv["rt"] == "fail" or kv["dec"] == "ne":
             corr_fail.append(dict(tag=tag, why="`%s`: what M87C prints for these bytes does not re-encode to them (A87C.jumpStmt/encode), "
                                   "against C15_87c_jump_roundtrip_partial" % desc))
+
+    for (_q, desc), ans in zip(cf_probes, ans_cf):
+        kv = kv_of(ans)
+        dist["callp_forward_probes"] = dist.get("callp_forward_probes", 0) + 1
+        if kv.get("enc") != "eq":
+            corr_fail.append(dict(tag="callp-fwd", why="the real asl and the passes of A87C.encodeF disagree on `%s` (model: %s)" % (desc, kv.get("masm"))))
 
     # ---- statements
     pairs_seen = set()
@@ -1126,7 +1213,9 @@ def run_part(args, bdir, ok):
                rule="TLCS-870: random valid programs from the statement inventory the real asl accepts (every InitFields mnemonic x operand spellings, "
                     "random operand values incl. boundaries), jrs/jr/jp/call/callp/callv into the image, data behind jp/jr, org gaps, vector table, 1..4 entry "
                     "addresses or vector entries, ORG blocks in ascending/descending/shuffled/interleaved/rotated/one-displaced source order (not for the page FE/FF features), -binfile@start, Intel -hexfile written by p2hex or by the harness (record orders as in c15.py), optionally -h; plus every pool statement on an 8-byte raster re-assembled "
-                    "on its own; plus first byte x second byte (x sampled further bytes) against the model",
+                    "on its own; plus first byte x second byte (x sampled further bytes) against the model; plus, as bytes (`db`), every instruction shape with a direct address operand "
+                    "for the addresses 0 and 255 (synthesized from the encodings of the addresses 1 and 2), in the statement raster and in the programs; callp with labels "
+                    "defined further down (half of them written as numbers, dasl prints a label in either case)",
                trusted=["87C800: statement inventory and instruction lengths are taken from the real asl (probe runs), not from a table of the harness",
                         "87C800: per-statement re-assembly defines the labels dasl invented by equ lines, one statement per org"])
     evaluations = len(reqs) + len(st_reqs) + len(sw_reqs) + len(j_reqs)
